@@ -28,14 +28,18 @@ pub struct Cfg {
     pub cache: u8,
     /// true = standalone passthrough (validates names itself)
     pub standalone: bool,
+    /// capabilities the client does NOT offer at INIT: 1 WRITEBACK_CACHE, 2 ZERO_MESSAGE_OPEN,
+    /// 4 ZERO_MESSAGE_OPENDIR, 8 HANDLE_KILLPRIV_V2 (0 = everything offered)
+    pub nocap: u8,
 }
 
 impl Cfg {
     pub fn show(&self) -> String {
         format!(
-            "{}{}{}{}{}{}{}{}{}:{}",
+            "{}{}{}{}{}{}{}{}{}:{}{}",
             self.no_open as u8, self.no_opendir as u8, self.inode_file_handles as u8, self.use_host_ino as u8,
-            self.writeback as u8, self.xattr as u8, self.killpriv_v2 as u8, self.allow_direct_io as u8, self.standalone as u8, self.cache
+            self.writeback as u8, self.xattr as u8, self.killpriv_v2 as u8, self.allow_direct_io as u8, self.standalone as u8, self.cache,
+            if self.nocap != 0 { format!(":{}", self.nocap) } else { String::new() }
         )
     }
     pub fn parse(s: &str) -> Cfg {
@@ -45,6 +49,7 @@ impl Cfg {
             no_open: g(0), no_opendir: g(1), inode_file_handles: g(2), use_host_ino: g(3), writeback: g(4),
             xattr: g(5), killpriv_v2: g(6), allow_direct_io: g(7), standalone: g(8),
             cache: s.split(':').nth(1).and_then(|x| x.parse().ok()).unwrap_or(2),
+            nocap: s.split(':').nth(2).and_then(|x| x.parse().ok()).unwrap_or(0),
         }
     }
     /// `PassthroughFs::new` resets conflicting options
@@ -55,6 +60,21 @@ impl Cfg {
         }
         if c.writeback && c.cache == 0 {
             c.writeback = false;
+        }
+        // `init`: a runtime switch goes on when the capability is offered and (standalone) the
+        // option is configured; behind a VFS (`do_import = false`) the offered set is the
+        // negotiated one and is honoured whatever the configuration says
+        let off = |bit: u8| self.nocap & bit == 0;
+        if c.standalone {
+            c.writeback = c.writeback && off(1);
+            c.no_open = c.no_open && off(2);
+            c.no_opendir = c.no_opendir && off(4);
+            c.killpriv_v2 = c.killpriv_v2 && off(8);
+        } else {
+            c.writeback = off(1);
+            c.no_open = off(2);
+            c.no_opendir = off(4);
+            c.killpriv_v2 = off(8);
         }
         c
     }
